@@ -78,6 +78,97 @@ def front_of_message(validate, data):
     return rec
 
 
+def show_val(v):
+    if isinstance(v, bool):
+        return "I:%d" % int(v)
+    if isinstance(v, int):
+        return "I:" + zstr(v)
+    if isinstance(v, float):
+        if v != v:
+            return "F:nan"
+        return "F:%016x" % struct.unpack("<Q", struct.pack("<d", v))[0]
+    if isinstance(v, (bytes, bytearray)):
+        return "B:" + hx(v)
+    if isinstance(v, str):
+        return "S:" + hx(v.encode("utf-8", "surrogatepass"))
+    if isinstance(v, list):
+        return "L:" + ("|".join(show_val(x) for x in v) or "-")
+    if v is None:
+        return "N"
+    return "O"
+
+
+def read_val(s):
+    if s == "N":
+        return None
+    if s == "O":
+        return (1, 2)       # "other": a tuple
+    tag, body = s[0], s[2:]
+    if tag == "I":
+        return unz(body)
+    if tag == "F":
+        if body == "nan":
+            return float("nan")
+        return struct.unpack("<d", struct.pack("<Q", int(body, 16)))[0]
+    if tag == "B":
+        return unhx(body)
+    if tag == "S":
+        return unhx(body).decode("utf-8", "surrogatepass")
+    if tag == "L":
+        return [] if body == "-" else [read_val(x) for x in body.split("|")]
+    raise ValueError(s)
+
+
+def canon_model_line(line):
+    """Model output carries CH strings as their source bytes; the implementation decodes them with
+    utf-8/backslashreplace.  Bring S: values to the implementation's form."""
+    if " S:" not in line and "=S:" not in line and not line.startswith("OK S:"):
+        return line
+    out = []
+    for tok in line.split(" "):
+        i = tok.find("S:")
+        if i >= 0 and (i == 0 or tok[i - 1] in "=|"):
+            parts = tok.split("|")
+            np_ = []
+            for pt in parts:
+                j = pt.find("S:")
+                if j >= 0 and (j == 0 or pt[j - 1] == "="):
+                    raw = unhx(pt[j + 2:])
+                    pt = pt[:j + 2] + hx(raw.decode("utf-8", "backslashreplace").encode("utf-8", "surrogatepass"))
+                np_.append(pt)
+            tok = "|".join(np_)
+        out.append(tok)
+    return " ".join(out)
+
+
+def show_msg(m):
+    attrs = " ".join("%s=%s" % (k, show_val(v)) for k, v in m.__dict__.items() if not k.startswith("_"))
+    return "OK cls=%s id=%s mode=%d payload=%s len=%s ident=%s ser=%s | %s" % (
+        hx(m.msg_cls), hx(m.msg_id), m.msgmode, hx(m.payload), zstr(m.length), m.identity, hx(m.serialize()), attrs)
+
+
+def read_aty(s):
+    if s == "CH":
+        return "CH"
+    l, k = s.split(":")
+    return chr(int(l)) + ("%03d" % int(k) if k != "n" else "xyz")
+
+
+def read_key(t):
+    return unz(t[2:]) if t[0] == "K" else t[2:]
+
+
+def aty_tail(t):
+    """(attsiz or n, letter code) of a type string, as the driver prints them"""
+    if t == "CH":
+        return "-1 67"
+    try:
+        n = zstr(int(t[1:4]))
+    except ValueError:
+        n = "n"
+    return "%s %d" % (n, ord(t[0]) if t else 0)
+
+
 def impl_exec(line):
     t = line.split()
     try:
@@ -100,4 +191,87 @@ def _exec(t):
         return "OK " + hx(z.to_bytes(w, "little", signed=sg))
     if c == "INTDEC":
         return zstr(int.from_bytes(unhx(t[2]), "little", signed=t[1] == "1"))
+    if c in ("PARSE", "PARSERT"):
+        with quiet():
+            m = UBXReader.parse(unhx(t[4]), msgmode=int(t[1]), validate=int(t[2]), parsebitfield=t[3] == "1")
+            if c == "PARSE":
+                return show_msg(m)
+            from pyubx2 import GET, SET, POLL  # noqa: F401  (names eval may need)
+            try:
+                m2 = eval(repr(m))  # pylint: disable=eval-used
+            except Exception as e:  # pylint: disable=broad-except
+                return "REPR-RAISE " + exn_name(e)
+            return "OK " + hx(m2.serialize())
+    if c == "CONSTRUCT":
+        with quiet():
+            if t[5] == "NONE":
+                return show_msg(UBXMessage(unhx(t[1]), unhx(t[2]), int(t[3]), parsebitfield=t[4] == "1"))
+            return show_msg(UBXMessage(unhx(t[1]), unhx(t[2]), int(t[3]), parsebitfield=t[4] == "1", payload=unhx(t[6])))
+    if c == "BUILD":
+        kw = {}
+        for tok in t[5:]:
+            k, v = tok.split("=", 1)
+            kw[k] = read_val(v)
+        with quiet():
+            return show_msg(UBXMessage(unhx(t[1]), unhx(t[2]), int(t[3]), parsebitfield=t[4] == "1", **kw))
+    if c == "NAMED":
+        a, b = uh.msgstr2bytes(t[1], t[2])
+        return "OK %s %s" % (hx(a), hx(b))
+    if c == "INTS":
+        a, b = uh.msgclass2bytes(unz(t[1]), unz(t[2]))
+        return "OK %s %s" % (hx(a), hx(b))
+    if c == "CFGSET":
+        items = []
+        for tok in t[3:]:
+            k, v = tok.split("=", 1)
+            items.append((read_key(k), read_val(v)))
+        with quiet():
+            return show_msg(UBXMessage.config_set(unz(t[1]), unz(t[2]), items))
+    if c == "CFGDEL":
+        with quiet():
+            return show_msg(UBXMessage.config_del(unz(t[1]), unz(t[2]), [read_key(k) for k in t[3:]]))
+    if c == "CFGPOLL":
+        with quiet():
+            return show_msg(UBXMessage.config_poll(unz(t[1]), unz(t[2]), [read_key(k) for k in t[3:]]))
+    if c == "CFGNAME2KEY":
+        k, ty = uh.cfgname2key(t[1])
+        return "OK %s %s" % (zstr(k), aty_tail(ty))
+    if c == "CFGKEY2NAME":
+        nm, ty = uh.cfgkey2name(unz(t[1]))
+        return "OK %s %s" % (nm, aty_tail(ty))
+    if c == "INPUTMODE":
+        return str(uh.getinputmode(unhx(t[1])))
+    if c == "IDENT":
+        m = UBXMessage.__new__(UBXMessage)
+        object.__setattr__(m, "_immutable", False)
+        m._ubxClass, m._ubxID = unhx(t[1]), unhx(t[2])
+        m._payload = None if t[3] == "None" else unhx(t[3])
+        return m.identity
+    if c == "V2B":
+        return "OK " + hx(uh.val2bytes(read_val(t[2]), read_aty(t[1])))
+    if c == "B2V":
+        return "OK " + show_val(uh.bytes2val(unhx(t[2]), read_aty(t[1])))
+    if c == "NOMVAL":
+        return "OK " + show_val(uh.nomval(read_aty(t[1])))
+    if c in ("ROUND", "FMUL", "FADD", "FDIV", "IDIV", "FOFZ", "INTOF", "ROUNDINT"):
+        fb = lambda h: struct.unpack("<d", struct.pack("<Q", int(h, 16)))[0]
+        if c == "ROUND":
+            return "OK " + show_val(round(fb(t[2]), unz(t[1])))
+        if c == "FMUL":
+            return show_val(fb(t[1]) * fb(t[2]))
+        if c == "FADD":
+            return show_val(fb(t[1]) + fb(t[2]))
+        if c == "FDIV":
+            return "OK " + show_val(fb(t[1]) / fb(t[2]))
+        if c == "IDIV":
+            return "OK " + show_val(unz(t[1]) / unz(t[2]))
+        if c == "FOFZ":
+            try:
+                return show_val(float(unz(t[1])))
+            except OverflowError:
+                return "F:%016x" % (0x7ff0000000000000 | (0x8000000000000000 if unz(t[1]) < 0 else 0))
+        if c == "INTOF":
+            return "OK " + zstr(int(fb(t[1])))
+        if c == "ROUNDINT":
+            return "OK " + zstr(round(fb(t[1])))
     return "ERR unknown command"
